@@ -8,9 +8,9 @@
    pseudo_selections, pseudo_expected, ...) are at the top of Proofs/HeaderCollectProofs.v and
    Proofs/HeaderWireProofs.v. *)
 From ReqV Require Import Lib.Bytes Model.HeaderOrder Model.HeaderCollect
-  Model.HeaderMerge Model.HeaderSeq Model.HeaderResend Model.HeaderShared
+  Model.HeaderMerge Model.HeaderSeq Model.HeaderResend Model.HeaderShared Model.HeaderFrag Model.HeaderRedirect
   Proofs.HeaderOrderProofs Proofs.HeaderCollectProofs Proofs.HeaderWireProofs Proofs.HeaderSyncProofs
-  Proofs.HeaderMergeProofs Proofs.HeaderKeySortProofs Proofs.HeaderSeqProofs Proofs.HeaderResendProofs Proofs.HeaderSharedProofs Gen.HeaderSrc.
+  Proofs.HeaderMergeProofs Proofs.HeaderKeySortProofs Proofs.HeaderSeqProofs Proofs.HeaderResendProofs Proofs.HeaderSharedProofs Proofs.HeaderFragProofs Proofs.HeaderRedirectProofs Gen.HeaderSrc.
 From Coq Require Import NArith.
 From Coq Require Import Permutation Sorting.Sorted.
 
@@ -104,6 +104,7 @@ Theorem C16_less_pinned_position_dependent :
     less_pinned order [x; y] 0 1 = false /\ less_pinned order [x; y] 1 0 = false /\
     less_pinned order [y; x] 0 1 = true.
 Proof. exact less_pinned_position_dependent. Qed.
+Print Assumptions C16_less_pinned_position_dependent.
 
 (* ===================== part 2: the three collectors ===================== *)
 
@@ -615,6 +616,58 @@ Theorem C16_h1_noncanonical_writer_name_kept : forall q k vs v,
 Proof. exact h1_noncanonical_writer_name_kept. Qed.
 Print Assumptions C16_h1_noncanonical_writer_name_kept.
 
+(* ===================== part 2e: header blocks of any size, hops after a redirect ===================== *)
+
+(* HTTP/2 (Model/HeaderFrag.v): whatever the size of the header block, the peer's MAX_FRAME_SIZE (> 5)
+   and the HEADERS priority setting: the peer reassembles exactly the block, no frame payload
+   (fragment + priority bytes) exceeds the limit, END_HEADERS sits on the last frame and on no other *)
+Theorem C16_write_headers_correct : forall prio max hdrs,
+  5 < max ->
+  reassemble (write_headers prio max hdrs) = hdrs /\
+  (forall f, In f (write_headers prio max hdrs) -> payload_len f <= max) /\
+  (hdrs <> [] -> exists init lastf, write_headers prio max hdrs = init ++ [lastf] /\
+     f_end lastf = true /\ forall f, In f init -> f_end f = false).
+Proof. exact write_headers_correct. Qed.
+Print Assumptions C16_write_headers_correct.
+
+Theorem C16_end_headers_early_refuted :
+  let hdrs := bs "0123456789ABCDEFGH" in
+  reassemble (write_headers true 20 hdrs) = hdrs /\
+  reassemble (split_block_early 18 true true 20 hdrs) = bs "0123456789ABCDE" /\
+  map payload_len (split_block_early 18 true true 20 hdrs) = [20; 3].
+Proof. exact end_headers_early_refuted. Qed.
+Print Assumptions C16_end_headers_early_refuted.
+
+(* a hop after a redirect (Model/HeaderRedirect.v): for every list of names given to
+   AlwaysCopyHeaderRedirectPolicy - any spelling, repeated, unknown - every name holds on the hop
+   exactly the initial request's values or nothing: never doubled, never altered *)
+Theorem C16_hop_never_doubles : forall initial names strip,
+  NoDup (map fst initial) ->
+  forall k, hvals (hop_hdr initial names strip) k = hvals initial k \/ hvals (hop_hdr initial names strip) k = [].
+Proof. exact hop_never_doubles. Qed.
+Print Assumptions C16_hop_never_doubles.
+
+(* a header the policy names reaches the hop with exactly the initial values, also when net/http
+   stripped it on leaving the initial domain *)
+Theorem C16_named_header_on_every_hop : forall initial names strip n,
+  NoDup (map fst initial) -> In n names -> hvals initial (mime_key n) <> [] ->
+  hvals (hop_hdr initial names strip) (mime_key n) = hvals initial (mime_key n).
+Proof. exact named_header_on_every_hop. Qed.
+Print Assumptions C16_named_header_on_every_hop.
+
+Theorem C16_policy_step_any_spelling : forall initial hop n n',
+  forallb is_tchar n = true -> to_lower n = to_lower n' -> policy_step initial hop n = policy_step initial hop n'.
+Proof. exact policy_step_any_spelling. Qed.
+Print Assumptions C16_policy_step_any_spelling.
+
+Theorem C16_policy_exact_spelling_refuted :
+  let initial := [(bs "Authorization", [bs "Bearer abc"]); (bs "X-A", [bs "1"])] in
+  hvals (hop_hdr initial [bs "authorization"] false) (bs "Authorization") = [bs "Bearer abc"] /\
+  hvals (fold_left (policy_step_exact initial) [bs "authorization"] (copy_headers false initial)) (bs "Authorization")
+    = [bs "Bearer abc"; bs "Bearer abc"].
+Proof. exact policy_exact_spelling_refuted. Qed.
+Print Assumptions C16_policy_exact_spelling_refuted.
+
 (* ===================== part 3: the source the model transcribes ===================== *)
 (* Gen/HeaderSrc.v is regenerated from the working tree on every run; these statements pin the text
    of the small functions the model was written from and the names the collectors write. *)
@@ -664,6 +717,12 @@ Proof.
   exact (conj h3_write_headers_go_as_modelled (conj (proj2 resend_go_as_modelled) h1_write_subset_call_go_as_modelled)).
 Qed.
 Print Assumptions C16_round4_go_as_modelled.
+
+Theorem C16_round5_go_as_modelled :
+  src_AlwaysCopyHeaderRedirectPolicy = bs "{ return func(req *http.Request, via []*http.Request) error { for _, header := range headers { if len(req.Header.Values(header)) > 0 { continue } vals := via[0].Header.Values(header) for _, val := range vals { req.Header.Add(header, val) } } return nil } }" /\
+  src_h2_writeHeaders = bs "{ first := true for len(hdrs) > 0 && cc.werr == nil { chunk := hdrs max := maxFrameSize if first && !cc.t.HeaderPriority.IsZero() && max > 5 { max -= 5 } if len(chunk) > max { chunk = chunk[:max] } hdrs = hdrs[len(chunk):] endHeaders := len(hdrs) == 0 if first { cc.fr.WriteHeaders(HeadersFrameParam{StreamID: streamID, BlockFragment: chunk, EndStream: endStream, EndHeaders: endHeaders, Priority: cc.t.HeaderPriority}) first = false } else { cc.fr.WriteContinuation(streamID, endHeaders, chunk) } } cc.bw.Flush() return cc.werr }".
+Proof. exact (conj always_copy_go_as_modelled h2_write_headers_go_as_modelled). Qed.
+Print Assumptions C16_round5_go_as_modelled.
 
 Example C16_nonvacuous :
   let order := [bs "x-b"; bs "COOKIE"; bs "x-a"; bs "x-b"] in
